@@ -160,6 +160,9 @@ func (fr *Frame) callResolved(in ssa.Instruction, callee *ssa.Function, binds []
 	if sp != nil && !sp.Inline {
 		return fr.applyContract(in, callee, sp, args, binds, resT, key)
 	}
+	if fr.depth == 0 && e.spec != nil && e.spec.CallPre != nil {
+		fr.checkCallPre(in, callee, sp, args, binds, key)
+	}
 	if e.canInline(callee, fr.depth) {
 		e.inlined[key] = true
 		// receiver nil check is done inside by dereferences
@@ -241,46 +244,7 @@ func (fr *Frame) applyContract(in ssa.Instruction, callee *ssa.Function, sp *Fun
 		}
 		e.oblige("pre", fr.prefix+name+"/"+lbl, fr.pc, t, e.posOf(in.Pos()), "precondition of "+key+": "+r.Src)
 	}
-	if e.spec != nil && e.spec.CallPre != nil {
-		for name, cls := range e.spec.CallPre {
-			if callee != nil && name != e.L.shortName(callee) && name != callee.Name() {
-				continue
-			}
-			if callee == nil && !strings.HasSuffix(key, "."+name) && key != name {
-				continue
-			}
-			cenv := e.calleeEnv(callee, sp, args, binds, fr.st, nil)
-			cenv.old = e.entry
-			if tp := pkgOf(e.top); tp != nil {
-				cenv.pkg = tp.Pkg // call-site conditions are written in the caller's vocabulary
-			}
-			if fr.depth == 0 {
-				// the caller's own names (parameters and named locals) are visible too, prefixed
-				// names of the callee win on a clash; "caller.x" always means the caller's x
-				benv := e.baseEnv(fr, fr.st)
-				for k, v := range benv.vars {
-					if _, clash := cenv.vars[k]; !clash {
-						cenv.vars[k] = v
-					}
-					cenv.vars["caller."+k] = v
-				}
-			}
-			for k, v := range e.params {
-				if _, clash := cenv.vars[k]; !clash {
-					cenv.vars[k] = v
-				}
-				cenv.vars["caller."+k] = v
-			}
-			for i, c := range cls {
-				t, err := cenv.evalBool(c.E)
-				if err != nil {
-					e.errs = append(e.errs, fmt.Sprintf("%s: %v", c.Line, err))
-					continue
-				}
-				e.oblige("callpre", fmt.Sprintf("%s%s/%d", fr.prefix, name, i+1), fr.pc, t, e.posOf(in.Pos()), "call-site condition for "+name+": "+c.Src)
-			}
-		}
-	}
+	fr.checkCallPre(in, callee, sp, args, binds, key)
 	old := fr.st.clone()
 	if sp.ModAll {
 		e.havocAll(fr.st)
@@ -633,4 +597,50 @@ func (fr *Frame) builtinAppend(in ssa.Instruction, args []Val, resT types.Type) 
 		newLen,
 		mkIte(mkOr(fits, nothing), s.sCap(), newCap))
 	return res
+}
+
+// checkCallPre: the call-site conditions (callpre) the function under verification states for this callee.
+// They apply however the call is then treated (contract, inlining or havoc).
+func (fr *Frame) checkCallPre(in ssa.Instruction, callee *ssa.Function, sp *FuncSpec, args []Val, binds []Val, key string) {
+	e := fr.e
+	if e.spec != nil && e.spec.CallPre != nil {
+		for name, cls := range e.spec.CallPre {
+			if callee != nil && name != e.L.shortName(callee) && name != callee.Name() {
+				continue
+			}
+			if callee == nil && !strings.HasSuffix(key, "."+name) && key != name {
+				continue
+			}
+			cenv := e.calleeEnv(callee, sp, args, binds, fr.st, nil)
+			cenv.old = e.entry
+			if tp := pkgOf(e.top); tp != nil {
+				cenv.pkg = tp.Pkg // call-site conditions are written in the caller's vocabulary
+			}
+			if fr.depth == 0 {
+				// the caller's own names (parameters and named locals) are visible too, prefixed
+				// names of the callee win on a clash; "caller.x" always means the caller's x
+				benv := e.baseEnv(fr, fr.st)
+				for k, v := range benv.vars {
+					if _, clash := cenv.vars[k]; !clash {
+						cenv.vars[k] = v
+					}
+					cenv.vars["caller."+k] = v
+				}
+			}
+			for k, v := range e.params {
+				if _, clash := cenv.vars[k]; !clash {
+					cenv.vars[k] = v
+				}
+				cenv.vars["caller."+k] = v
+			}
+			for i, c := range cls {
+				t, err := cenv.evalBool(c.E)
+				if err != nil {
+					e.errs = append(e.errs, fmt.Sprintf("%s: %v", c.Line, err))
+					continue
+				}
+				e.oblige("callpre", fmt.Sprintf("%s%s/%d", fr.prefix, name, i+1), fr.pc, t, e.posOf(in.Pos()), "call-site condition for "+name+": "+c.Src)
+			}
+		}
+	}
 }
